@@ -50,7 +50,7 @@ theorem attach_fold_framed (base fuel c : Nat) : ∀ (d : Dict) (H0 H : NsHeap),
     (in particular not on `par`, its ancestors, or `c`'s new siblings) -/
 theorem C13_attach_isolated (fuel : Nat) (H : NsHeap) (hr : RefsOK H) (par c m : Nat)
     (hm : ¬ Reach (withChild H par c).kids c m) : (attachNs fuel H par c).nsmapOf m = H.nsmapOf m := by
-  have hunfold : attachNs fuel H par c = (if dictEq ((withChild H par c).nsmapOf par) ((withChild H par c).nsmapOf c) = true
+  have hunfold : attachNs fuel H par c = (if (withChild H par c).nsmapOf par = (withChild H par c).nsmapOf c
     then (withChild H par c).setNs c ((withChild H par c).ns par)
     else ((withChild H par c).nsmapOf par).foldl (fun Hc kv =>
       if (Hc.nsmapOf c).has kv.1 then Hc else addNs fuel Hc c kv.1 kv.2 none) (withChild H par c)) := rfl
@@ -90,7 +90,7 @@ theorem C13_refs_step (fuel : Nat) (H : NsHeap) (hr : RefsOK H) (op : NsOp) : Re
   cases op with
   | attach par c =>
     simp only [nsStep]
-    have hunfold : attachNs fuel H par c = (if dictEq ((withChild H par c).nsmapOf par) ((withChild H par c).nsmapOf c) = true
+    have hunfold : attachNs fuel H par c = (if (withChild H par c).nsmapOf par = (withChild H par c).nsmapOf c
       then (withChild H par c).setNs c ((withChild H par c).ns par)
       else ((withChild H par c).nsmapOf par).foldl (fun Hc kv =>
         if (Hc.nsmapOf c).has kv.1 then Hc else addNs fuel Hc c kv.1 kv.2 none) (withChild H par c)) := rfl
@@ -179,28 +179,25 @@ theorem has_of_mem : ∀ (d : Dict) (kv : String × String), kv ∈ d → d.has 
 
 /-- attaching `c` under `par`: afterwards the child's map is the merge of the parent's bindings into the child's
     own map - every prefix of the parent is visible in the child, and every binding the child had is kept (the
-    child's own bindings win).  `hac`: the child is not its own descendant; key uniqueness is what a Python dict
-    guarantees. -/
+    child's own bindings win).  `hac`: the child is not its own descendant. -/
 theorem C13_attach_visible (fuel : Nat) (H : NsHeap) (hr : RefsOK H) (par c : Nat)
-    (hac : ∀ k ∈ (withChild H par c).kids c, ¬ Reach (withChild H par c).kids k c)
-    (hnp : (H.nsmapOf par).keys.Nodup) (hnc : (H.nsmapOf c).keys.Nodup) :
+    (hac : ∀ k ∈ (withChild H par c).kids c, ¬ Reach (withChild H par c).kids k c) :
     (∀ kv ∈ H.nsmapOf par, ((attachNs (fuel + 1) H par c).nsmapOf c).has kv.1 = true) ∧
     (∀ k v, (H.nsmapOf c).get? k = some v → ((attachNs (fuel + 1) H par c).nsmapOf c).get? k = some v) := by
-  have hunfold : attachNs (fuel + 1) H par c = (if dictEq ((withChild H par c).nsmapOf par) ((withChild H par c).nsmapOf c) = true
+  have hunfold : attachNs (fuel + 1) H par c = (if (withChild H par c).nsmapOf par = (withChild H par c).nsmapOf c
     then (withChild H par c).setNs c ((withChild H par c).ns par)
     else ((withChild H par c).nsmapOf par).foldl (fun Hc kv =>
       if (Hc.nsmapOf c).has kv.1 then Hc else addNs (fuel + 1) Hc c kv.1 kv.2 none) (withChild H par c)) := rfl
   rw [hunfold]
   have hp : (withChild H par c).nsmapOf par = H.nsmapOf par := rfl
   have hc : (withChild H par c).nsmapOf c = H.nsmapOf c := rfl
-  by_cases hde : dictEq ((withChild H par c).nsmapOf par) ((withChild H par c).nsmapOf c) = true
+  by_cases hde : (withChild H par c).nsmapOf par = (withChild H par c).nsmapOf c
   · rw [if_pos hde]
     have hmap : ((withChild H par c).setNs c ((withChild H par c).ns par)).nsmapOf c = H.nsmapOf par := by
       simp [NsHeap.nsmapOf, NsHeap.setNs, withChild]
     rw [hmap]
     rw [hp, hc] at hde
-    have hsame := (dictEq_iff _ _ hnp hnc).mp hde
-    exact ⟨fun kv hkv => has_of_mem _ kv hkv, fun k v h => by rw [hsame k]; exact h⟩
+    exact ⟨fun kv hkv => has_of_mem _ kv hkv, fun k v h => by rw [hde]; exact h⟩
   · rw [if_neg hde]
     have := attach_fold_root fuel c (withChild H par c).kids hac ((withChild H par c).nsmapOf par) (withChild H par c) hr rfl
     rw [this, hp, hc]
